@@ -184,7 +184,8 @@ def oracle_step(case, ctx):
 
 # ------------------------------------------------------------------ (b) membership predicates
 
-STATE_ASPECTS = ['none', 'add_row', 'add_col', 'drop_row', 'undeclared_type', 'none_object_cell', 'hidden_object_cell', 'held_hidden', 'agent_y-1', 'agent_x-1', 'agent_y=h', 'agent_x=w', 'agent_far', 'held_undeclared']
+STATE_ASPECTS = ['none', 'add_row', 'add_col', 'drop_row', 'undeclared_type', 'none_object_cell', 'hidden_object_cell', 'held_hidden', 'agent_y-1', 'agent_x-1', 'agent_y=h', 'agent_x=w', 'agent_far', 'held_undeclared',
+                 'undeclared_color', 'held_undeclared_color']   # states: colours are not among the listed criteria, so these members conform
 OBS_ASPECTS = ['none', 'add_row', 'add_2cols', 'drop_row', 'undeclared_type', 'undeclared_color', 'agent_y-1', 'agent_x-1', 'agent_y=h', 'agent_x=w', 'held_undeclared_type', 'held_undeclared_color', 'hidden_cell']
 
 
